@@ -1,0 +1,7 @@
+//go:build !verif
+
+// Package verifhook is a no-op observation point used by the external
+// verification harness. Without the `verif` build tag Point does nothing.
+package verifhook
+
+func Point(name string, v int64) {}
